@@ -24,7 +24,8 @@ RULE = ("every graph (symmetric irreflexive relation) on 0..5 (quick) / 0..6 (th
         "enumeration plus random graphs on 7..12 positions (chains in shuffled order, stars, cliques, cycles, sparse and "
         "dense random), plus lists that hold an event at several positions (twins: every partition of <= 4 (quick) / <= 5 "
         "(thorough) positions into twin classes x every relation on the events incl. f(a, a); random ones with 1..3 repeats); "
-        "every non-empty set of events without geometry on lists of <= 4 positions (random otherwise); "
+        "a size class of lists of 129..300 events with sparse relations touching positions >= 128 and >= 256 (3 quick / 12 "
+        "thorough); every non-empty set of events without geometry on lists of <= 4 positions (random otherwise); "
         "the comparison function comes as plain function, lambda, partial, bound method, callable object and falsy callable "
         "object (every guise for lists of <= 3 (quick) / <= 4 (thorough) positions, random otherwise), also looks at the "
         "geometry of its arguments when events lack one, and logs whether its arguments equal the input events; "
@@ -175,6 +176,7 @@ def _graph(n, edges, ids=None, loops=(), ret="bool", ng=(), gd=False, guise="fun
 def random_cases(rng, tier):
     """Graphs on 7..12 events (a third of them with 1..3 events repeated in the list) -- larger than TLC enumerates;
     judged by the same TLA+ clauses."""
+    yield from _large_cases(rng, tier)
     count = 300 if tier == "quick" else 3000
     for k in range(count):
         n = rng.randrange(7, 13)
@@ -218,6 +220,23 @@ def random_cases(rng, tier):
                          guise=rng.choice(_GUISES))
 
 
+def _large_cases(rng, tier):
+    """Size class: lists of 129..300 events with a very sparse relation (disjoint short chains) whose edges touch list
+    positions >= 128 and >= 256 -- index arithmetic in narrow integer types shows only there.  O(n^2) comparison calls."""
+    sizes = [129, rng.randrange(130, 256), rng.randrange(257, 301)] if tier == "quick" else \
+            [129, 130, 200, 255, 256, 257, 258, 300] + [rng.randrange(129, 301) for _ in range(4)]
+    for n in sizes:
+        hi = [a for a in (128, 129, 256, 257, n) if a <= n]         # 1-based positions 129.. = 0-based >= 128
+        edges = [(1, 129)] if n == 129 else []
+        for a in hi:
+            edges.append((rng.randrange(1, 128), a))                 # a low position linked to a high one
+        if n > 140:
+            b = rng.randrange(131, n + 1)
+            edges.append((b - 1, b))                                 # two high neighbours
+            edges.append((rng.randrange(1, 100), b))
+        yield _graph(n, edges)
+
+
 def nontrivial(o):
     c = o["in"]
     if not c["e"]:
@@ -238,7 +257,7 @@ MANIFEST = {
              "(quick) / <= 6 nodes (thorough, 33 868 graphs); every graph is then run on the real function with a logging "
              "table-lookup comparison function answering as bool / numpy.bool_ / int, handed over in seven guises (incl. falsy callable objects), logging whether its "
              "arguments equal the input events, with events that have no geometry, twice (distinct / identical-up-to-uuid events), plus random graphs on 7-12 "
-             "nodes, and TLC validates sequences and call log clause by clause."),
+             "nodes and a size class of 129-300 events, and TLC validates sequences and call log clause by clause."),
     "note": ("trusted: TLC, binder checks/c13.py (encoder: positions by uuid); exhaustive up to 6 nodes, sampled 7-12; the "
              "input list is assumed to hold distinct events and the comparison function to be symmetric (quantifier of the statement)"),
     "design_ref": "DESIGN.md section 4 C13",
